@@ -99,6 +99,7 @@ type Case struct {
 	DelayPoint string `json:"delay_point"`  // sleep DelayMs at every hit of this point (optionally only when its 2nd arg == DelayArg)
 	DelayMs    int    `json:"delay_ms"`
 	DelayArg   *uint64 `json:"delay_arg,omitempty"`
+	Delays     map[string]int `json:"delays,omitempty"` // further points: sleep this many ms at every hit
 }
 
 type Result struct {
@@ -603,12 +604,15 @@ func runCase(c Case) (res Result) {
 	}
 	hits := map[string]int{}
 	var hitMu sync.Mutex
-	if c.KillPoint != "" || c.FlushAtAll != "" || c.CountHits || c.DelayPoint != "" {
+	if c.KillPoint != "" || c.FlushAtAll != "" || c.CountHits || c.DelayPoint != "" || len(c.Delays) > 0 {
 		verifhook.Set(func(name string, args []uint64, sarg string) {
 			hitMu.Lock()
 			hits[name]++
 			n := hits[name]
 			hitMu.Unlock()
+			if ms := c.Delays[name]; ms > 0 {
+				time.Sleep(time.Duration(ms) * time.Millisecond)
+			}
 			if c.DelayPoint != "" && name == c.DelayPoint && (c.DelayArg == nil || (len(args) > 1 && args[1] == *c.DelayArg)) {
 				time.Sleep(time.Duration(c.DelayMs) * time.Millisecond)
 			}
